@@ -794,11 +794,13 @@ class DiscreteFactor(BaseFactor, StateNameMixin):
             )
             phi1.values = phi1.values.swapaxes(axis, exchange_index)
 
-        phi.values = phi.values / phi1.values
+        values = phi.values / phi1.values
 
         # If factor division 0/0 = 0 but is undefined for x/0. In pgmpy we are using
-        # np.inf to represent x/0 cases.
-        phi.values[config.get_compute_backend().isnan(phi.values)] = 0
+        # np.inf to represent x/0 cases. `where` (rather than item assignment) also
+        # works when the scope is empty and the quotient is a 0-d scalar.
+        backend = config.get_compute_backend()
+        phi.values = backend.where(backend.isnan(values), 0.0, values)
 
         if not inplace:
             return phi
